@@ -56,6 +56,51 @@ def tensordot_dense(t, u, k, mode):
     return deinterleave(res, len(want))
 
 
+def tensordot_dense_open(t, u, k, mode):
+    """the same with free (uncontracted) outer ranks > 1: result shape rows + cols + [r0, rd]"""
+    nt, nu = t.order, u.order
+
+    def pairs_and_ranks(x, n):
+        d = dense(x.cores)
+        if d.ndim == 2 * n:
+            d = d.reshape(list(d.shape) + [1, 1])
+        perm = [a for i in range(n) for a in (i, n + i)] + [2 * n, 2 * n + 1]
+        return np.transpose(d, perm)            # (m1, n1, ..., mn, nn, r0, rd)
+    T, U = pairs_and_ranks(t, nt), pairs_and_ranks(u, nu)
+    tlast, ufirst = mode.startswith('last'), mode.endswith('first')
+    # the contracted end has rank 1: drop it, keep the free end as one extra axis
+    T = T[..., 0] if tlast else T[..., 0, :]            # free: r0 of t (last-*) resp. rd of t (first-*)
+    U = U[..., 0, :] if ufirst else U[..., 0]            # free: rd of u (*-first) resp. r0 of u (*-last)
+    tc = list(range(nt - k, nt)) if tlast else list(range(k))
+    uc = list(range(k)) if ufirst else list(range(nu - k, nu))
+    at = [a for i in tc for a in (2 * i, 2 * i + 1)]
+    au = [a for i in uc for a in (2 * i, 2 * i + 1)]
+    res = np.tensordot(T, U, axes=(at, au))
+    trem = [i for i in range(nt) if i not in tc]
+    urem = [i for i in range(nu) if i not in uc]
+    # res axes: t remaining pairs, ft, u remaining pairs, fu
+    pos = {}
+    a = 0
+    for i in trem:
+        pos[('t', i)] = (a, a + 1); a += 2
+    ft = a; a += 1
+    for i in urem:
+        pos[('u', i)] = (a, a + 1); a += 2
+    fu = a
+    if mode == 'last-first':
+        want, r0, rd = [('t', i) for i in trem] + [('u', i) for i in urem], ft, fu
+    elif mode == 'last-last':
+        want, r0, rd = [('t', i) for i in trem] + [('u', i) for i in reversed(urem)], ft, fu
+    elif mode == 'first-last':
+        want, r0, rd = [('u', i) for i in urem] + [('t', i) for i in trem], fu, ft
+    else:
+        want, r0, rd = [('u', i) for i in reversed(urem)] + [('t', i) for i in trem], fu, ft
+    if not want:          # complete contraction: one core (free rank of self, 1, 1, free rank of other) in every mode
+        return np.transpose(res, [ft, fu]).reshape(1, 1, res.shape[ft], res.shape[fu])
+    perm = [pos[s_][0] for s_ in want] + [pos[s_][1] for s_ in want] + [r0, rd]
+    return np.transpose(res, perm)
+
+
 def op_tensordot(rng, mode_):
     nt, nu = rng.randint(1, 4), rng.randint(1, 4)
     k = rng.randint(1, min(nt, nu))
@@ -67,8 +112,16 @@ def op_tensordot(rng, mode_):
     uc = list(range(k)) if mode.endswith('first') else list(range(nu - k, nu))
     for a, b in zip(tc, uc):
         ru[b], cu[b] = rt[a], ct[a]
+    openr = rng.random() < 0.3          # free outer ranks > 1 at the uncontracted ends (the u / v parts of TT.svd are such trains)
+    if openr:
+        rkt[0 if mode.startswith('last') else -1] = rng.randint(1, 3)
+        rku[-1 if mode.endswith('first') else 0] = rng.randint(1, 3)
     t = gen_tt(rng, rt, ct, rkt, rng.random() < 0.35, mode_)
     u = gen_tt(rng, ru, cu, rku, rng.random() < 0.35, mode_)
+    if openr:
+        return dict(op='tensordot:' + mode, opcode=1, inputs=[t, u, k, mode],
+                    lit_in=lambda: [lib.cores_lit(t.cores), lib.cores_lit(u.cores), MODES.index(mode), k],
+                    impl=lambda: t.tensordot(u, k, mode=mode), expect=lambda: tensordot_dense_open(t, u, k, mode), kind='tt_b')
     return dict(op='tensordot:' + mode, opcode=1, inputs=[t, u, k, mode],
                 lit_in=lambda: [lib.cores_lit(t.cores), lib.cores_lit(u.cores), MODES.index(mode), k],
                 impl=lambda: t.tensordot(u, k, mode=mode), expect=lambda: tensordot_dense(t, u, k, mode), kind='tt')
